@@ -88,7 +88,7 @@ Definition multi (t : task) : Prop := 2 <= List.length (t_oschema t).
 (* the results are unpacked: at least two declared outputs, or at least one and the callable
    returned a generator *)
 Definition unpacked (t : task) (it : iterab D) : Prop :=
-  multi t \/ (t_oschema t <> [] /\ exists ys fin, it = Iter true ys fin).
+  multi t \/ (t_oschema t <> [] /\ exists ys fin, it = Iter KGenerator ys fin).
 
 Lemma run_task_unpacked : forall tid (t : task) src publish m args kwargs v it,
   bound_args t src m = Ok (args, kwargs) ->
@@ -99,16 +99,16 @@ Lemma run_task_unpacked : forall tid (t : task) src publish m args kwargs v it,
     | Iter _ ys fin => store_loop tid publish (sort_by_key (t_oschema t)) ys fin []
     end.
 Proof.
-  intros tid t src publish m args kwargs v it Hb Hc Hu. unfold run_task. rewrite Hb.
+  intros tid t src publish m args kwargs v it Hb Hc Hu. unfold run_task, run_task_with. rewrite Hb.
   pose proof (sort_length (t_oschema t)) as Hlen.
   destruct (sort_by_key (t_oschema t)) as [|[k1 s1] r] eqn:Hs.
   - exfalso. destruct Hu as [Hm|[Hne _]]; [unfold multi in Hm; cbn in Hlen; lia|].
     destruct (t_oschema t); [contradiction|discriminate].
   - rewrite Hc.
-    assert (Hun : unpacks (List.length ((k1, s1) :: r)) it = true).
+    assert (Hun : unpacks_with is_generator (List.length ((k1, s1) :: r)) it = true).
     { destruct Hu as [Hm|[_ (ys & fin & ->)]]; [|reflexivity].
-      unfold multi in Hm. rewrite <- Hlen in Hm. unfold unpacks.
-      destruct it as [|[|] ys fin]; try reflexivity; apply Nat.ltb_lt; exact Hm. }
+      unfold multi in Hm. rewrite <- Hlen in Hm. unfold unpacks_with.
+      destruct it as [|[] ys fin]; try reflexivity; apply Nat.ltb_lt; exact Hm. }
     rewrite Hun. reflexivity.
 Qed.
 
@@ -145,7 +145,7 @@ Lemma run_task_multi_ok_iff : forall tid (t : task) src publish m args kwargs,
 Proof.
   intros tid t src publish m args kwargs Hm Hb.
   destruct (call (t_func t) args kwargs) as [e|v it] eqn:Hc.
-  - unfold run_task. rewrite Hb.
+  - unfold run_task, run_task_with. rewrite Hb.
     destruct (sort_by_key (t_oschema t)) as [|[k s] r]; rewrite ?Hc; cbn [snd];
       (split; [discriminate|intros (v & gn & ys & H & _); discriminate]).
   - rewrite (run_task_unpacked _ _ _ _ _ _ _ _ _ Hb Hc (or_introl Hm)).
@@ -161,12 +161,12 @@ Qed.
 Lemma run_task_single : forall tid (t : task) src publish m args kwargs k s v it,
   t_oschema t = [(k, s)] -> bound_args t src m = Ok (args, kwargs) ->
   call (t_func t) args kwargs = CRet v it ->
-  (forall ys fin, it <> Iter true ys fin) ->
+  (forall ys fin, it <> Iter KGenerator ys fin) ->
   run_task call tid t src publish m = ([((tid, k), v, in_publish (tid, k) publish)], Ok tt).
 Proof.
   intros tid t src publish m args kwargs k s v it Ho Hb Hc Hng.
-  unfold run_task. rewrite Hb, Ho. cbn [sort_by_key fold_right insert_by_key]. rewrite Hc.
-  destruct it as [|[|] ys fin]; try reflexivity. exfalso. eapply Hng. reflexivity.
+  unfold run_task, run_task_with. rewrite Hb, Ho. cbn [sort_by_key fold_right insert_by_key]. rewrite Hc.
+  destruct it as [|[] ys fin]; try reflexivity. exfalso. eapply Hng. reflexivity.
 Qed.
 
 (* ------------------------------------------------------------------ the value stored under an output *)
@@ -222,19 +222,19 @@ Proof.
   intros tid t tasks src publish m hs Ht Hnd Hrun.
   assert (Hnd' : NoDup (map fst (sort_by_key (t_oschema t)))).
   { eapply Permutation_NoDup; [|exact Hnd]. apply Permutation_map, Permutation_sym, sort_perm. }
-  unfold run_task in Hrun.
+  unfold run_task, run_task_with in Hrun.
   destruct (bound_args t src m) as [[args kwargs]|e] eqn:Hb; [|discriminate].
   destruct (sort_by_key (t_oschema t)) as [|[k1 s1] r] eqn:Hs; [discriminate|].
   assert (Hkeys : exists ys, List.length ys = List.length ((k1, s1) :: r) /\ hs = stores tid publish ((k1, s1) :: r) ys).
   { destruct (call (t_func t) args kwargs) as [e|v it]; [discriminate|].
-    destruct (unpacks (List.length ((k1, s1) :: r)) it) eqn:Hun.
+    destruct (unpacks_with is_generator (List.length ((k1, s1) :: r)) it) eqn:Hun.
     - destruct it as [|gn ys fin]; [discriminate|].
       pose proof (store_loop_ok_iff tid publish ((k1, s1) :: r) ys fin) as Hiff.
       rewrite Hrun in Hiff. cbn [snd] in Hiff. destruct Hiff as [Hiff _]. destruct (Hiff eq_refl) as [Hl ->].
       rewrite store_loop_exact in Hrun by exact Hl. injection Hrun as <-. exists ys. split; [exact Hl|reflexivity].
     - assert (Hr : r = []).
-      { destruct r as [|x r']; [reflexivity|]. exfalso. unfold unpacks in Hun. cbn [List.length] in Hun.
-        destruct it as [|[|] ys fin]; discriminate. }
+      { destruct r as [|x r']; [reflexivity|]. exfalso. unfold unpacks_with in Hun. cbn [List.length] in Hun.
+        destruct it as [|[] ys fin]; discriminate. }
       subst r. injection Hrun as <-. exists [v]. split; reflexivity. }
   destruct Hkeys as (ys & Hl & ->).
   set (outs := (k1, s1) :: r) in *.
